@@ -1,4 +1,155 @@
 package main
 
-func runControls(c *Ctx, spec propSpec, o opts) {}
-func cmdControl(args []string) int             { return 0 }
+// Positive controls: is each rule still able to fire?
+//
+// A control is a one-construct mutation of /repo's *current* source, applied in
+// memory through go/packages' overlay (nothing is written to disk). The
+// property's rules are run on the mutated program and the named rule must
+// report a violation. A control whose anchor text is no longer present, or
+// whose mutant does not type-check, is reported "skipped" and does not fail the
+// check (the tree may legitimately have changed); a control that applies but is
+// not detected makes the check fail (META.CONTROL): the rule has gone blind.
+
+import (
+	"fmt"
+	"os"
+	"path/filepath"
+	"strings"
+)
+
+type control struct {
+	Name  string
+	Props []string
+	Quick bool
+	File  string
+	Old   string
+	New   string
+	Rule  string
+}
+
+var controls = []control{
+	{"for-post-before-first-iteration", []string{"C08", "C01"}, true, "seq/seq.go", "\t\tloop(true)\n", "\t\tloop(false)\n", "SEQ.FOR"},
+	{"combine-runs-rest-on-continue", []string{"C08"}, true, "seq/seq.go", "if t == kNormal {", "if t == kNormal || t == kContinue {", "SEQ.COMBINE"},
+	{"pending-step-not-cleared", []string{"C08", "C02"}, false, "seq/seq.go", "\t\ts := c.step   // otherwise nil\n\t\tc.step = nil\n", "\t\ts := c.step   // otherwise nil\n", "SEQ.TAKE"},
+	{"bind-runs-thunk-eagerly", []string{"C02", "C08"}, true, "seq/seq.go", "\treturn func(c *co[V], k cont[V]) {\n\t\tc.step = &step[V]{\n\t\t\tvalue: v,\n\t\t\tnext:  mkNext(f, c, k),", "\tf()\n\treturn func(c *co[V], k cont[V]) {\n\t\tc.step = &step[V]{\n\t\t\tvalue: v,\n\t\t\tnext:  mkNext(f, c, k),", "SEQ.LAZY"},
+	{"exhaustion-not-absorbing", []string{"C09", "C02"}, true, "seq/seq.go", "\t\td.next = nil\n\t\td.current = zero[V]()", "\t\td.current = zero[V]()", "SEQ.GEN"},
+	{"send-passes-zero", []string{"C09"}, true, "seq/seq.go", "\tif d.moveNext(v) {", "\tif d.moveNext(zero[V]()) {", "SEQ.GEN"},
+	{"current-not-reset", []string{"C09"}, false, "seq/seq.go", "\t\td.next = nil\n\t\td.current = zero[V]()\n", "\t\td.next = nil\n", "SEQ.GEN"},
+	{"integer-iter-off-by-one", []string{"C10", "C04"}, true, "seq/iter.go", "return i.i < i.n", "return i.i <= i.n", "ITER.IV"},
+	{"string-iter-runelen", []string{"C10"}, true, "seq/iter.go", "s.next += w", "s.next += utf8.RuneLen(r) + w - w", "ITER.STR"},
+	{"map-iter-panicking-assert", []string{"C10"}, false, "seq/iter.go", "k, _ := m.iter.Key().Interface().(K)", "k := m.iter.Key().Interface().(K)", "ITER.ASSERT"},
+	{"slice-iter-copies", []string{"C10"}, false, "seq/iter.go", "return &sliceIter[V]{slice: slice, idx: -1}", "return &sliceIter[V]{slice: append([]V(nil), slice...), idx: -1}", "ITER.IV"},
+	{"package-level-state", []string{"C14"}, true, "seq/seq.go", "func Delay[V any](f lazy[V]) Seq[V] {\n\treturn func(c *co[V], k cont[V]) {\n", "var delayRuns int\n\nfunc Delay[V any](f lazy[V]) Seq[V] {\n\treturn func(c *co[V], k cont[V]) {\n\t\tdelayRuns++\n", "SEQ.STATE"},
+	{"loop-state-hoisted", []string{"C14"}, true, "seq/seq.go", "\treturn func(c *co[V], k cont[V]) {\n\t\tvar loop func(skipPost bool)\n", "\tvar loop func(skipPost bool)\n\treturn func(c *co[V], k cont[V]) {\n", "SEQ.STATE"},
+	{"trampoline-removed", []string{"C17"}, true, "seq/seq.go", "\t\t\t\t\t\tif inBody {\n\t\t\t\t\t\t\tagain = true\n\t\t\t\t\t\t} else {", "\t\t\t\t\t\tif inBody && false {\n\t\t\t\t\t\t\tagain = true\n\t\t\t\t\t\t} else {", "SEQ.STACK.HEIGHT"},
+	{"recover-in-advance", []string{"C18"}, true, "seq/seq.go", "func (d *generator[V]) moveNext(sent V) bool {\n", "func (d *generator[V]) moveNext(sent V) bool {\n\tdefer func() { recover() }()\n", "SEQ.SYNC"},
+	{"state-overwritten-before-step", []string{"C18"}, false, "seq/seq.go", "\ts := d.next(sent) // compute next step\n", "\td.current = zero[V]()\n\ts := d.next(sent) // compute next step\n", "SEQ.CHAIN"},
+	{"implicit-normal-table", []string{"C01", "C11"}, true, "rewriter/yield_block.go", "\tcase kindIf, kindSwitch, kindTrival:\n\t\treturn !isTerminating(last)", "\tcase kindIf, kindTrival:\n\t\treturn !isTerminating(last)", "RW.KINDTAB"},
+	{"break-ignores-native-switch", []string{"C01"}, true, "rewriter/yield_rewrite.go", "\t\t\t\tif inLoop() || inSwitch() {\n\t\t\t\t\treturn\n\t\t\t\t}\n\t\t\t\tr.assert(n.Label == nil, n, \"break", "\t\t\t\tif inLoop() {\n\t\t\t\t\treturn\n\t\t\t\t}\n\t\t\t\tr.assert(n.Label == nil, n, \"break", "RW.BRANCHCTX"},
+	{"for-args-swapped", []string{"C01", "C02"}, false, "rewriter/yield_ast.go", "\treturn y.SeqCall(cstFor, cond, post, body)", "\treturn y.SeqCall(cstFor, post, cond, body)", "RW.TMPL.FOR"},
+	{"defer-not-rejected", []string{"C12"}, true, "rewriter/yield_rewrite.go", "\t\t*ast.LabeledStmt, *ast.CaseClause,\n\t\t*ast.DeferStmt:", "\t\t*ast.LabeledStmt, *ast.CaseClause:", "RW.DISPATCH"},
+	{"if-init-unguarded", []string{"C12"}, true, "rewriter/yield_rewrite.go", "\tr.assert(r.mustNoYield(stmt.Init), stmt, \"yield in if-init not supported\")\n", "", "RW.FIELDCOV"},
+	{"labelled-break-accepted", []string{"C12"}, false, "rewriter/yield_rewrite.go", "\t\t\t\tr.assert(n.Label == nil, n, \"break with label not supported\")\n", "", "RW.BRANCHCTX"},
+	{"signature-check-dropped", []string{"C12"}, false, "rewriter/rewrite.go", "\t\t\t\t\tcheckSignature(info.TypeOf(f.Name), n.Pos())\n", "", "RW.SIG"},
+	{"tagless-switch-panics", []string{"C11"}, true, "rewriter/etc.go", "\tcase nil: // tag-less switch\n\t\treturn X.SwitchStmt(init, nil, body)\n", "", "RW.FACTORY"},
+	{"loop-body-not-closed", []string{"C11"}, true, "rewriter/yield_rewrite.go", "\t\tr.generateLastNormalIfNecessary(body)\n\t\tcallFor := r.CallFor(\n\t\t\tr.ForCondFun(stmt.Cond),\n\t\t\tr.ForPostFun(stmt.Post),", "\t\tcallFor := r.CallFor(\n\t\t\tr.ForCondFun(stmt.Cond),\n\t\t\tr.ForPostFun(stmt.Post),", "RW.CLOSE"},
+	{"unlabelled-break-panics", []string{"C11"}, false, "rewriter/return.go", "\t\t\tif s.Label != nil {\n\t\t\t\tpanic(\"labelled break not supported\")", "\t\t\tif s.Label == nil {\n\t\t\t\tpanic(\"labelled break not supported\")", "RW.EXH"},
+	{"bind-whitelisted", []string{"C02", "C07", "C18"}, true, "rewriter/optimize.go", "\t\tcstLoop,\n\t\tcstReturn,\n\t)", "\t\tcstLoop,\n\t\tcstReturn,\n\t\tcstBind,\n\t)", "OPT.WHITELIST"},
+	{"bind-literal-widened", []string{"C07", "C02"}, false, "rewriter/optimize.go", "matcher.MkPattern[BasicLitPattern](m, constTrue), // literal", "matcher.MkPattern[ExprPattern](m, constTrue), // anything", "OPT.BINDLIT"},
+	{"eta-callee-unchecked", []string{"C07", "C13"}, true, "rewriter/optimize.go", "\t\t\t\tstableCallee(ctx, fun, false) && sameType(ctx, c.Node(), fun) {", "\t\t\t\tsameType(ctx, c.Node(), fun) {", "OPT.ETA"},
+	{"iter-type-predicate-dropped", []string{"C13"}, true, "rewriter/rewrite.go", "\t\tif r.isIterator(pkg.TypeOf(n.X)) {\n\t\t\tc.Replace(X.Index(", "\t\tif r.isIterator(pkg.TypeOf(n.X)) || true {\n\t\t\tc.Replace(X.Index(", "RW.MUTGUARD"},
+	{"range-body-spliced", []string{"C03", "C04"}, true, "rewriter/range.go", "\t\tbody := X.Block(kv, n.Body)\n", "\t\tbody := X.Block1(kv, n.Body.List...)\n", "RW.TMPL.RANGE"},
+	{"hoist-without-block", []string{"C03"}, true, "rewriter/yield_rewrite.go", "\t\t\tif inYieldFunc() && isDefineStmt(n.Init) {\n\t\t\t\tinit := n.Init\n\t\t\t\tn.Init = nil\n\t\t\t\tn.For = token.NoPos\n\t\t\t\tc.Replace(X.Block(init, n))", "\t\t\tif inYieldFunc() && isDefineStmt(n.Init) {\n\t\t\t\tinit := n.Init\n\t\t\t\tn.Init = nil\n\t\t\t\tn.For = token.NoPos\n\t\t\t\tc.InsertBefore(init)", "RW.TMPL.HOIST"},
+	{"string-range-wrong-iter", []string{"C04"}, true, "rewriter/range.go", "\t\t\t\t\tdo(cstNewStringIter, n.X)", "\t\t\t\t\tdo(cstNewSliceIter, n.X)", "RW.RANGEDISPATCH"},
+	{"yieldfrom-yields-twice", []string{"C05"}, true, "rewriter/yieldfrom_rewrite.go", "\t\tBody: X.Block(callYield),", "\t\tBody: X.Block(callYield, callYield),", "RW.TMPL.YIELDFROM"},
+	{"consumer-operand-twice", []string{"C05", "C06"}, true, "rewriter/rewrite.go", "\tcond := X.Call(next)\n\tbody := X.Block1(", "\tcond := X.Call(X.Select(fr.X, cstMoveNext))\n\t_ = next\n\tbody := X.Block1(", "RW.TMPL.CONSUMER"},
+	{"consumer-always-define", []string{"C06"}, true, "rewriter/rewrite.go", "X.Assign(fr.Tok, fr.Key, X.Call(current))", "X.Define(fr.Key, X.Call(current))", "RW.TMPL.CONSUMER"},
+	{"gensym-counter-frozen", []string{"C15"}, true, "rewriter/range.go", "\tr.symCnt++\n", "", "DET.GENSYM"},
+	{"map-order-dependence", []string{"C15"}, true, "rewriter/rewrite.go", "\tr.yieldFuncLits = map[*ast.FuncLit]bool{}\n", "\tr.yieldFuncLits = map[*ast.FuncLit]bool{}\n\tfor k := range r.yieldFuncDecls {\n\t\t_ = k\n\t}\n", "DET.MAPRANGE"},
+	{"tmp-not-emptied", []string{"C15", "C16"}, false, "rewriter/compile.go", "\ttmpOutputDir := mustMkEmptyDir(dir + \"_tmp\")", "\ttmpOutputDir := mustMkDir(dir + \"_tmp\")", "DET.TMP"},
+	{"header-without-negation", []string{"C16"}, true, "rewriter/compile.go", "const fileComment = `//go:build !%s", "const fileComment = `//go:build %s", "GEN.HEADER"},
+	{"test-suffix-unmapped", []string{"C16"}, true, "rewriter/compile.go", "\t\t\tfilename = strings.TrimSuffix(filename, testFileSuffix) + \"_test.go\"", "\t\t\tfilename = strings.TrimSuffix(filename, testFileSuffix) + \".go\"", "GEN.NAME"},
+}
+
+func runControls(c *Ctx, spec propSpec, o opts) {
+	if c.W == nil {
+		return
+	}
+	for _, ctl := range controls {
+		mine := false
+		for _, p := range ctl.Props {
+			if p == c.Prop {
+				mine = true
+			}
+		}
+		if !mine || (o.tier != "thorough" && !ctl.Quick) {
+			continue
+		}
+		c.Controls = append(c.Controls, runControl(c, spec, ctl))
+	}
+}
+
+func runControl(c *Ctx, spec propSpec, ctl control) ControlResult {
+	res := ControlResult{Name: ctl.Name, Rule: ctl.Rule}
+	path := filepath.Join(c.W.Repo, ctl.File)
+	src, err := os.ReadFile(path)
+	if err != nil {
+		res.Result, res.Detail = "skipped", "file not found: "+ctl.File
+		return res
+	}
+	if strings.Count(string(src), ctl.Old) != 1 {
+		res.Result, res.Detail = "skipped", fmt.Sprintf("anchor text occurs %d times in %s (the construct has changed)", strings.Count(string(src), ctl.Old), ctl.File)
+		return res
+	}
+	mutated := strings.Replace(string(src), ctl.Old, ctl.New, 1)
+	w2, err := loadWorld(c.W.Repo, map[string][]byte{path: []byte(mutated)})
+	if err != nil {
+		res.Result, res.Detail = "skipped", "mutant does not type-check: "+firstLine(err.Error())
+		return res
+	}
+	c2 := newCtx(c.Prop, c.Tier, c.Seed, w2)
+	c2.guard("META.RUN", func() { spec.Run(c2) })
+	c.Paths += c2.Paths
+	c.States += c2.States
+	baseline := map[string]bool{}
+	for _, ob := range c.Obls {
+		if ob.Status == Violated {
+			baseline[ob.Key()] = true // already violated (known finding) on the unmutated tree
+		}
+	}
+	for _, ob := range c2.Obls {
+		if ob.Rule == ctl.Rule && ob.Status == Violated && !baseline[ob.Key()] {
+			res.Result = "fired"
+			res.Detail = ob.Construct
+			return res
+		}
+	}
+	// a rule of the same family (RW.TMPL.RANGE.GENSYM for RW.TMPL.RANGE ...) or an undecided verdict does not count
+	var others []string
+	for _, ob := range c2.Obls {
+		if ob.Status != OK {
+			others = append(others, ob.Rule+"("+string(ob.Status)+")")
+		}
+	}
+	res.Result = "MISSED"
+	res.Detail = fmt.Sprintf("mutation %q of %s applied, but rule %s reported no violation (other findings: %s)", ctl.Name, ctl.File, ctl.Rule, strings.Join(others, ", "))
+	return res
+}
+
+func firstLine(s string) string {
+	if i := strings.Index(s, "\n"); i >= 0 {
+		s = s[:i]
+	}
+	if len(s) > 200 {
+		s = s[:200]
+	}
+	return s
+}
+
+func cmdControl(args []string) int {
+	// gocoverif control list
+	for _, ctl := range controls {
+		fmt.Printf("%-36s %-28s quick=%-5v %s (%s)\n", ctl.Name, ctl.Rule, ctl.Quick, strings.Join(ctl.Props, ","), ctl.File)
+	}
+	return 0
+}
